@@ -67,6 +67,11 @@ impl TestCase {
                     expected,
                 });
             }
+        } else if output.exit_code == ExitStatus::Unknown {
+            // killed by a signal, aborted or never run: this can never be a success
+            return Err(TestCaseError::InternalError(anyhow::anyhow!(
+                "execution ended without an exit code"
+            )));
         }
         let diff_tool = DiffTool::new(self.expectations.clone());
         let stream = if self.config.output_stream == Some(OutputStreamControl::Stderr) {
